@@ -599,6 +599,23 @@ func connBody(c *runner.Ctx) {
 		case op < 10:
 			desc = append(desc, "echo")
 			h.send("echo", fmt.Sprintf("e%d", k), nil, nil)
+		case op == 10 && h.faulty && c.Choose(3, "garbage-or-bomb") == 0:
+			// a small valid query whose nested fragment spreads double at every
+			// level: handling it must not take exponential time
+			depth := 22 + c.Choose(5, "bomb-depth")
+			var sb strings.Builder
+			sb.WriteString("{ ...F0 }\n")
+			for i := 0; i < depth; i++ {
+				fmt.Fprintf(&sb, "fragment F%d on Query { ...F%d ...F%d }\n", i, i+1, i+1)
+			}
+			fmt.Fprintf(&sb, "fragment F%d on Query { n }\n", depth)
+			c.Fault("fragment-spread-bomb")
+			c.WallGuard = 5 * time.Second
+			c.WallNote = fmt.Sprintf("subscribe with a %d-byte query of %d nested double fragment spreads", sb.Len(), depth)
+			desc = append(desc, fmt.Sprintf("bomb(%d)", depth))
+			bid := fmt.Sprintf("b%d", k)
+			h.send("subscribe", bid, map[string]interface{}{"query": sb.String(), "variables": map[string]interface{}{"inst": -1}}, nil)
+			h.send("unsubscribe", bid, nil, nil)
 		case op == 10 && h.faulty:
 			desc = append(desc, "garbage")
 			c.Fault("garbage-envelope")
